@@ -1657,3 +1657,356 @@ func c02R10(c *Ctx, r *Report) {
 	}
 	r.Floor(rule, n, 2, "generic conversions in the two emitCast functions")
 }
+
+// ---- C03.R14 / C03.R15: untyped literals in binary expressions ----------------------------------------------
+
+func init() {
+	lateInits = append(lateInits, func() {
+		props["C03"].Quick = append(props["C03"].Quick, c03R14, c03R15)
+		props["C11"].Quick = append(props["C11"].Quick, c03R15)
+		props["C03"].Explanation += " (R14) checkBinaryExpr accepts an operand pair because one of them is an untyped literal only under a guard that also establishes that both operands are numbers (or untyped literals): a literal does not adapt to a bool, string or optional. (R15) in checkExpr the result type of an arithmetic expression depends on the type of the right operand as well as of the left one on every path (`2 * 3.5` is a float constant)."
+	})
+}
+
+var numericPreds = map[string]bool{"IsNumericType": true, "IsNumeric": true, "IsInteger": true, "IsFloat": true, "IsUntyped": true, "IsUntypedInt": true, "IsUntypedFloat": true}
+
+// sideOf: "lhs" / "rhs" / "" for an expression rooted at a variable named lhs… / rhs…
+func sideOf(e ast.Expr) string {
+	s := exprStr(e)
+	switch {
+	case strings.HasPrefix(s, "lhs"):
+		return "lhs"
+	case strings.HasPrefix(s, "rhs"):
+		return "rhs"
+	}
+	return ""
+}
+
+func c03R14(c *Ctx, r *Report) {
+	const rule = "C03.R14"
+	r.Describe(rule, "typechecker.checkBinaryExpr: every accepting `return` whose own guard tests IsUntyped on both the left and the right operand stands under guards that establish, as conjuncts, a numeric-or-untyped predicate for the left and for the right operand (local booleans and same-package helpers are expanded)")
+	fn := c.LookupFn(pkgTC, "checkBinaryExpr")
+	if !r.Anchor(rule, fn != nil, "typechecker.checkBinaryExpr") {
+		return
+	}
+	info := fn.Info()
+	defs := localDefs(fn)
+	// expand: the expression with local boolean variables replaced by their (single) definition
+	var expand func(e ast.Expr, depth int) ast.Expr
+	expand = func(e ast.Expr, depth int) ast.Expr {
+		e = ast.Unparen(e)
+		if id, ok := e.(*ast.Ident); ok && depth < 4 {
+			if o := info.Uses[id]; o != nil && len(defs[o]) == 1 {
+				if b, ok := o.Type().Underlying().(*types.Basic); ok && b.Kind() == types.Bool {
+					return expand(defs[o][0], depth+1)
+				}
+			}
+		}
+		return e
+	}
+	// mentionsUntyped: sides on which the (expanded) expression calls IsUntyped*
+	var mentionsUntyped func(e ast.Expr, subst map[types.Object]ast.Expr, depth int, out map[string]bool)
+	// establishes: sides for which the expression, taken as a conjunction, requires a numeric-or-untyped predicate
+	var establishes func(e ast.Expr, subst map[types.Object]ast.Expr, depth int, out map[string]bool)
+	argSide := func(a ast.Expr, subst map[types.Object]ast.Expr) string {
+		a = ast.Unparen(a)
+		if id, ok := a.(*ast.Ident); ok && subst != nil {
+			if o := info.Uses[id]; o != nil {
+				if s, ok := subst[o]; ok {
+					return sideOf(s)
+				}
+			}
+			// identifiers of a helper's own body
+			for o, s := range subst {
+				if o.Name() == id.Name {
+					return sideOf(s)
+				}
+			}
+			return ""
+		}
+		return sideOf(a)
+	}
+	helperOf := func(cl *ast.CallExpr) (*Fn, map[types.Object]ast.Expr) {
+		f := callee(info, cl)
+		if f == nil || f.Pkg() == nil || f.Pkg() != fn.Obj.Pkg() {
+			return nil, nil
+		}
+		hf := c.FnOf(f)
+		if hf == nil || hf.Decl == nil || hf.Decl.Body == nil {
+			return nil, nil
+		}
+		sig := f.Type().(*types.Signature)
+		if sig.Params().Len() != len(cl.Args) {
+			return nil, nil
+		}
+		sub := map[types.Object]ast.Expr{}
+		for i := 0; i < sig.Params().Len(); i++ {
+			sub[sig.Params().At(i)] = cl.Args[i]
+		}
+		return hf, sub
+	}
+	predName := func(cl *ast.CallExpr) string {
+		if sel, ok := ast.Unparen(cl.Fun).(*ast.SelectorExpr); ok && exprStr(sel.X) == "types" {
+			return sel.Sel.Name
+		}
+		return ""
+	}
+	mentionsUntyped = func(e ast.Expr, subst map[types.Object]ast.Expr, depth int, out map[string]bool) {
+		if subst == nil {
+			e = expand(e, 0)
+		}
+		ast.Inspect(e, func(x ast.Node) bool {
+			if id, ok := x.(*ast.Ident); ok && subst == nil {
+				if ex := expand(id, 0); ex != ast.Expr(id) {
+					mentionsUntyped(ex, nil, depth+1, out)
+				}
+			}
+			cl, ok := x.(*ast.CallExpr)
+			if !ok {
+				return true
+			}
+			if strings.HasPrefix(predName(cl), "IsUntyped") && len(cl.Args) == 1 {
+				if s := argSide(cl.Args[0], subst); s != "" {
+					out[s] = true
+				}
+			}
+			if hf, sub := helperOf(cl); hf != nil && depth < 2 && subst == nil {
+				ast.Inspect(hf.Decl.Body, func(y ast.Node) bool {
+					if ex, ok := y.(ast.Expr); ok {
+						if hc, ok := ex.(*ast.CallExpr); ok && strings.HasPrefix(predNameIn(hc), "IsUntyped") && len(hc.Args) == 1 {
+							if s := argSide(hc.Args[0], sub); s != "" {
+								out[s] = true
+							}
+						}
+					}
+					return true
+				})
+			}
+			return true
+		})
+	}
+	establishes = func(e ast.Expr, subst map[types.Object]ast.Expr, depth int, out map[string]bool) {
+		for _, cj := range conjuncts(e) {
+			cj = ast.Unparen(cj)
+			if subst == nil {
+				cj = expand(cj, 0)
+				if len(conjuncts(cj)) > 1 {
+					establishes(cj, subst, depth, out)
+					continue
+				}
+			}
+			// a helper: the conjuncts of its final `return <expr>` under the parameter substitution
+			if cl, ok := cj.(*ast.CallExpr); ok && subst == nil && depth < 2 {
+				if hf, sub := helperOf(cl); hf != nil {
+					list := hf.Decl.Body.List
+					if len(list) > 0 {
+						if ret, ok := list[len(list)-1].(*ast.ReturnStmt); ok && len(ret.Results) == 1 {
+							establishes(ret.Results[0], sub, depth+1, out)
+						}
+					}
+					continue
+				}
+			}
+			// a disjunction of numeric-or-untyped predicates, all on the same side
+			side, all := "", true
+			for _, dj := range disjuncts(cj) {
+				cl, ok := ast.Unparen(dj).(*ast.CallExpr)
+				name := ""
+				if ok {
+					name = predName(cl)
+					if subst != nil {
+						name = predNameIn(cl)
+					}
+				}
+				if !ok || !numericPreds[name] || len(cl.Args) != 1 {
+					all = false
+					break
+				}
+				s := argSide(cl.Args[0], subst)
+				if s == "" || (side != "" && s != side) {
+					all = false
+					break
+				}
+				side = s
+			}
+			if all && side != "" {
+				out[side] = true
+			}
+		}
+	}
+	n := 0
+	walkWithStack(fn.Decl.Body, func(nd ast.Node, stack []ast.Node) bool {
+		ret, ok := nd.(*ast.ReturnStmt)
+		if !ok || len(stack) < 2 {
+			return true
+		}
+		blk, ok := stack[len(stack)-1].(*ast.BlockStmt)
+		if !ok {
+			return true
+		}
+		ifs, ok := stack[len(stack)-2].(*ast.IfStmt)
+		if !ok || ifs.Body != blk || len(blk.List) != 1 {
+			return true // a return after a diagnostic is a rejection, not an acceptance
+		}
+		own := map[string]bool{}
+		mentionsUntyped(ifs.Cond, nil, 0, own)
+		if !(own["lhs"] && own["rhs"]) {
+			return true
+		}
+		n++
+		est := map[string]bool{}
+		for i := len(stack) - 1; i >= 0; i-- {
+			if _, isClause := stack[i].(*ast.CaseClause); isClause {
+				break
+			}
+			if outer, ok := stack[i].(*ast.IfStmt); ok {
+				// only when we are in its body (not in its else)
+				if i+1 < len(stack) && stack[i+1] == ast.Node(outer.Body) {
+					establishes(outer.Cond, nil, 0, est)
+				}
+			}
+		}
+		r.Check(est["lhs"] && est["rhs"], rule, fn.Name(), "untyped operand accepted only beside a number: "+exprStr(ifs.Cond), c.pos(ret.Pos()),
+			"an operand pair is accepted because one side is an untyped literal, whatever the other side is: `true - 2` type-checks (and prints true), `b == 1` and an optional `x > 5` type-check, `\"a\" * 2` and `b < 2.5` reach QBE, which rejects the program")
+		return true
+	})
+	r.Floor(rule, n, 4, "untyped-operand acceptances in checkBinaryExpr")
+}
+
+// predNameIn: the predicate name of a call written inside package typechecker (types.IsX) — same as predName but
+// without access to the caller's info.
+func predNameIn(cl *ast.CallExpr) string {
+	if sel, ok := ast.Unparen(cl.Fun).(*ast.SelectorExpr); ok && exprStr(sel.X) == "types" {
+		return sel.Sel.Name
+	}
+	return ""
+}
+
+func c03R15(c *Ctx, r *Report) {
+	const rule = "C03.R15"
+	r.Describe(rule, "typechecker.checkExpr, case *ast.BinaryExpr: after `resultType = <left operand type>` every path to `return resultType` passes a statement that makes resultType depend on the right operand type (an assignment from an expression mentioning it, or a condition on it guarding an assignment)")
+	fn := c.LookupFn(pkgTC, "checkExpr")
+	if !r.Anchor(rule, fn != nil, "typechecker.checkExpr") {
+		return
+	}
+	info := fn.Info()
+	var cc *ast.CaseClause
+	ast.Inspect(fn.Decl.Body, func(x ast.Node) bool {
+		if cl, ok := x.(*ast.CaseClause); ok && cc == nil {
+			for _, t := range caseTypes(info, cl) {
+				if nt := namedOf(t); nt != nil && nt.Obj().Name() == "BinaryExpr" {
+					cc = cl
+				}
+			}
+		}
+		return true
+	})
+	if !r.Anchor(rule, cc != nil, "checkExpr: case *ast.BinaryExpr") {
+		return
+	}
+	// the operand type variables: lhsType := checkExpr(…, e.X, …), rhsType := checkExpr(…, e.Y, …)
+	var lhsT, rhsT, resT types.Object
+	for _, st := range cc.Body {
+		ast.Inspect(st, func(x ast.Node) bool {
+			as, ok := x.(*ast.AssignStmt)
+			if !ok || len(as.Lhs) != 1 || len(as.Rhs) != 1 {
+				return true
+			}
+			cl, ok := as.Rhs[0].(*ast.CallExpr)
+			if ok && isCallTo(info, cl, fn.Obj) && len(cl.Args) >= 3 && as.Tok == token.DEFINE {
+				switch {
+				case strings.HasSuffix(exprStr(cl.Args[2]), ".X") && lhsT == nil:
+					lhsT = objOf(info, as.Lhs[0])
+				case strings.HasSuffix(exprStr(cl.Args[2]), ".Y"):
+					rhsT = objOf(info, as.Lhs[0])
+				}
+			}
+			return true
+		})
+	}
+	// resultType: the variable returned at the end of the clause
+	for _, st := range cc.Body {
+		ast.Inspect(st, func(x ast.Node) bool {
+			if vs, ok := x.(*ast.ValueSpec); ok && len(vs.Names) == 1 && vs.Names[0].Name == "resultType" {
+				resT = info.Defs[vs.Names[0]]
+			}
+			return true
+		})
+	}
+	if !r.Anchor(rule, lhsT != nil && rhsT != nil && resT != nil, "checkExpr BinaryExpr: lhsType / rhsType / resultType") {
+		return
+	}
+	mentions := func(n ast.Node, o types.Object) bool {
+		found := false
+		ast.Inspect(n, func(x ast.Node) bool {
+			if id, ok := x.(*ast.Ident); ok && info.Uses[id] == o {
+				found = true
+			}
+			return true
+		})
+		return found
+	}
+	assignsRes := func(n ast.Node) (ast.Expr, bool) {
+		if as, ok := n.(*ast.AssignStmt); ok && len(as.Lhs) == 1 && len(as.Rhs) == 1 && objOf(info, as.Lhs[0]) == resT {
+			return as.Rhs[0], true
+		}
+		return nil, false
+	}
+	// conditions on rhsType that guard an assignment to resultType
+	guardConds := map[ast.Expr]bool{}
+	for _, st := range cc.Body {
+		ast.Inspect(st, func(x ast.Node) bool {
+			if ifs, ok := x.(*ast.IfStmt); ok && mentions(ifs.Cond, rhsT) {
+				hit := false
+				ast.Inspect(ifs.Body, func(y ast.Node) bool {
+					if _, ok := assignsRes(y); ok {
+						hit = true
+					}
+					return true
+				})
+				if hit {
+					guardConds[ifs.Cond] = true
+				}
+			}
+			return true
+		})
+	}
+	blk := &ast.BlockStmt{List: cc.Body, Lbrace: cc.Colon, Rbrace: cc.End()}
+	nKill, nT := 0, 0
+	hits := mustFlow(c.CFGOfBody(blk), FlowSpec{
+		InitTrue: true,
+		Kill: func(n ast.Node) bool {
+			if rhs, ok := assignsRes(n); ok && mentions(rhs, lhsT) && !mentions(rhs, rhsT) {
+				nKill++
+				return true
+			}
+			return false
+		},
+		Gate: func(n ast.Node) bool {
+			if rhs, ok := assignsRes(n); ok && mentions(rhs, rhsT) {
+				return true
+			}
+			if e, ok := n.(ast.Expr); ok {
+				for g := range guardConds {
+					if g == e || (g.Pos() <= e.Pos() && e.End() <= g.End() && mentions(e, rhsT)) {
+						return true
+					}
+				}
+			}
+			return false
+		},
+		Target: func(n ast.Node) bool {
+			if ret, ok := n.(*ast.ReturnStmt); ok && len(ret.Results) == 1 && objOf(info, ret.Results[0]) == resT {
+				nT++
+				return true
+			}
+			return false
+		},
+	})
+	where := c.pos(cc.Pos())
+	if len(hits) > 0 && hits[0].Pos.IsValid() {
+		where = c.pos(hits[0].Pos)
+	}
+	r.Check(nKill > 0 && nT > 0 && len(hits) == 0, rule, fn.Name(), "the type of an arithmetic expression depends on both operand types", where,
+		"the result type of an arithmetic expression is taken from the left operand alone: `2 * 3.5` is an integer constant, so `let a: i32 = 2 + 3.5` is accepted and stores 5")
+}
